@@ -133,6 +133,16 @@ def writer_keys(ctx, cq: str, method: str = "to_dict") -> tuple[dict[tuple, set[
                     if isinstance(n, ast.Attribute) and isinstance(n.ctx, ast.Store) and isinstance(n.value, ast.Name) and n.value.id == "self":
                         stored.add(n.attr)
 
+    reads: set = ctx.__dict__.setdefault("_c06_writer_reads", {}).setdefault(cq, set())
+
+    class _RecAttrs(dict):
+        """the instance attributes of the stand-in object; remembers which of them the writer reads"""
+        def __contains__(self, k):
+            return dict.__contains__(self, k)
+        def __getitem__(self, k):
+            reads.add(k)
+            return dict.__getitem__(self, k)
+
     def run(over: dict[str, Any]) -> Any:
         attrs = {k: U(k) for k in set(fields) | stored}
         attrs.update(over)
@@ -146,6 +156,7 @@ def writer_keys(ctx, cq: str, method: str = "to_dict") -> tuple[dict[tuple, set[
                 for k, v in _universal_names(prog, c.module).items():
                     env.setdefault(k, v)
         me = Proxy(prog, cq, env, attrs, interp_kwargs=IK)
+        object.__setattr__(me, "_a", _RecAttrs(object.__getattribute__(me, "_a")))
         try:
             return call_method(prog, cq, method, me, env, interp_kwargs=IK)
         except Raised as ex:
@@ -349,3 +360,13 @@ def reader_result(ctx, cq: str, method: str, doc: dict) -> Any:
         return call_method(prog, cq, method, klass, env, *args, interp_kwargs=IK)
     except Raised as ex:
         return ex
+
+
+def writer_reads(ctx, cq: str, method: str = "to_dict") -> set[str]:
+    """Attributes of self that ``cq.method`` reads when it is interpreted on an object with every attribute present (empty if the
+    writer cannot be interpreted)."""
+    try:
+        writer_keys(ctx, cq, method)
+    except AnalysisError:
+        pass
+    return set(ctx.__dict__.get("_c06_writer_reads", {}).get(cq, set()))
